@@ -332,3 +332,31 @@ def branch_is_re_evaluated_for_the_function_set_it_is_asked_for(S):
     net2 = S.new(DON, trunk2, branch2, S.new(RN, "u", d), Sym(zint(q) * d, "int"))
     S.method(net2, "_forward_branch", setB, 1)
     S.ensure("second-network-sharing-the-function-set-evaluates-its-own-branch-without-resampling", len(seen2) == 1 and len(pb.calls) == 2 and len(seen) == 4)
+
+
+@scenario("C09", [M + "trunknets.FCTrunkNet.forward", "torchphysics.models.model.Model._fix_points_order"], configs=["fast", "plain"], bounded="trunk variables x:2, t:1, one hidden layer of width 2, 2 neurons, output dimension 1; numbers of functions and locations, weights and inputs symbolic")
+def trunk_net_reads_its_variables_by_name(S):
+    """the trunk net is a model over NAMED variables (C08 applies to it): locations handed over as (t, x) give the
+    same features as the same locations handed over in the declared order (x, t) -- a sampler over A_t * A_x
+    produces the first form; locations lacking a variable are rejected"""
+    I = S.I
+    from tpv import tshape
+
+    B, n = S.int("B", 1), S.int("n", 1)
+    mul = lambda a, b: I.binop(ast.Mult(), a, b)
+    xt = mul(S.new(RN, "x", 2), S.new(RN, "t", 1))
+    tx = mul(S.new(RN, "t", 1), S.new(RN, "x", 2))
+    net = S.new(M + "trunknets.FCTrunkNet", xt, hidden=(2,), trunk_input_copied=(S.cfg == "fast"))
+    S.method(net, "finalize", S.new(RN, "u", 1), 2)
+    X0, T0 = S.tensor("X0", [n, 2]), S.tensor("T0", [n, 1])
+    lead = lambda v, cols_: STensor([core.dim_of(B), core.dim_of(n), Dim([cols_])], lambda idx: zreal(v.at([idx[1], idx[2]])), "real")
+    d_xt = Tensor(tshape.cat(I, [lead(X0.val, 2), lead(T0.val, 1)], 2))
+    d_tx = Tensor(tshape.cat(I, [lead(T0.val, 1), lead(X0.val, 2)], 2))
+    o1 = S.method(net, "forward", S.new(POINTS, d_xt, xt)).val
+    o2 = S.method(net, "forward", S.new(POINTS, d_tx, tx)).val
+    ok = o1.rank == o2.rank and o1.rank >= 3 and all(a.same(b) for a, b in zip(o1.shape, o2.shape))
+    S.ensure("same-feature-shape-for-both-variable-orders", ok)
+    if ok:
+        S.forall("same-features-for-permuted-variable-order", Tensor(o1), lambda q: zreal(o1.at(q)) == zreal(o2.at(q)))
+    only_x = S.new(POINTS, Tensor(lead(X0.val, 2)), S.new(RN, "x", 2))
+    S.ensure_raises("locations-lacking-a-variable-rejected", lambda: S.method(net, "forward", only_x), ["ValueError", "KeyError", "RuntimeError", "AssertionError"])
